@@ -178,12 +178,13 @@ func ruleConnHandlerGuard(c *Ctx, rule string) {
 	getPerm := w.Func("allocation", "Allocation", "GetPermission")
 	recv := fn.Params[0]
 	n := 0
-	w.eachInstr(fn, func(in ssa.Instruction) {
+	w.eachInstrDeep(fn, func(in ssa.Instruction) {
 		call, ok := in.(*ssa.Call)
 		if !ok || call.Call.StaticCallee() != add {
 			return
 		}
 		n++
+		hfn := call.Parent() // connHandler, or the single-call-site helper holding the loop body
 		c.Anchor(rule, "addTCPConnection")
 		conn := call.Call.Args[2]
 		g := w.guardedBy(call, getPerm, -1, "nonnil", func(g *ssa.Call) bool {
@@ -206,14 +207,18 @@ func ruleConnHandlerGuard(c *Ctx, rule string) {
 		// failing edge closes conn
 		var iff *ssa.If
 		var nilSucc *ssa.BasicBlock
-		for _, b := range fn.Blocks {
+		for _, b := range hfn.Blocks {
 			i, ok := b.Instrs[len(b.Instrs)-1].(*ssa.If)
 			if !ok {
 				continue
 			}
 			for _, f := range normCond(i.Cond, true) {
 				if v, isNil, ok := nilFact(f); ok {
-					if gc, _ := callOf(v); gc == g {
+					gc, _ := callOf(v)
+					if gc == nil {
+						gc = w.asAccessorCall(v, getPerm)
+					}
+					if gc == g {
 						iff = i
 						if isNil {
 							nilSucc = b.Succs[0]
